@@ -52,3 +52,27 @@ _PENDING = "not yet implemented in this revision of /verif (planned in DESIGN.md
 NA = {("C%02d" % i): _PENDING for i in range(1, 32)}
 NA["C01"] = "pure functions of their arguments: no schedule, clock, I/O, fault or multi-party behaviour for a simulator to control (DESIGN.md section 6, C01)"
 NA["C31"] = "configuration precedence is a pure function of flags, environment and file; nothing for a deterministic simulator to schedule or fault (DESIGN.md section 6, C31)"
+
+# ---- L1 (bitmap store) -------------------------------------------------------
+L1_REAL = ["roaring.Bitmap with slice and B-tree container collections, op log writer, UnmarshalBinary (Pilosa and official formats), ImportRoaringBits, RemapRoaringStorage, Optimize, all read paths and the set kernels used for derivation"]
+L1_STUB = ["the fragment file is a byte buffer owned by the harness (append = op log write, replace = snapshot); munmap is emulated by overwriting the released bytes", "payloads are produced by the independent encoder simrt/roaringenc.go"]
+PROPS["C02"] = P("exploration",
+    "Each evaluation is one seeded history of 5-45 operations on one bitmap (mostly B-tree, some slice containers): point and batch add/remove with duplicates and unsorted input, roaring imports (set/clear) in 7 encodings (Pilosa auto/bitmap/array/run, official without runs, with run cookie, all-run), Optimize, and storage events snapshot (encode, remap to the new bytes, scribble the released mapping), reopen (decode the file bytes into a fresh bitmap that continues the history), unmap; values concentrated on 1-3 container keys including key 0 with lengths crossing the 4096-value and 2048-run thresholds; after each step all read paths (Slice, Count, Any, ForEach, Iterator Seek/Next, per-container N, Min, Max, Contains, CountRange, SliceRange) are compared with a set model and each mutation's change count with the model's.",
+    L1_REAL, L1_STUB, budget=(30, 600))
+PROPS["C03"] = P("exploration",
+    "Each evaluation is one seeded history on one bitmap that derives values (Clone, Freeze, Union, Intersect, Difference, Xor, OffsetRange window, other.Union(b)), records their contents as observed at derivation, then mutates the source, snapshots (remap + scribble of the released mapping), reopens, unmaps, or mutates a derived value, and re-reads both sides: derived values must read exactly as recorded and the source must equal the model.",
+    L1_REAL, L1_STUB, budget=(30, 600))
+PROPS["C04"] = P("exploration",
+    "Each evaluation is one seeded sequence of: decode of independently encoded bytes (7 encodings, both container collections) twice from the same buffer with a checksum of the buffer before and after; encode/decode round trips of the live bitmap including flags; imports (set/clear) of encoded payloads into arbitrary target states with exact change counts; with snapshot/reopen in between. Thorough tier adds 2^16-container official payloads.",
+    L1_REAL, L1_STUB, budget=(30, 600))
+PROPS["C05"] = P("exploration",
+    "Each evaluation is one seeded history of 3-32 logged mutations (adds, removes, batches with duplicates, removals of absent values, imports that change nothing, re-encoding by snapshot, reopen); after EVERY operation the simulated file (snapshot bytes + appended op log) is decoded into a fresh bitmap which must equal the model set, and its operation/bit-change counters must equal the live bitmap's.",
+    L1_REAL, L1_STUB, budget=(30, 600))
+MAN["C02"] = {"text": "Seeded exploration of mutation/read histories on one bitmap with storage events (snapshot/remap, reopen, unmap) injected between operations; every read path compared with a set model after every step.",
+              "note": "Histories <=45 ops on <=3 containers; single caller, so no scheduler involvement; storage events are the only faults."}
+MAN["C03"] = {"text": "Seeded exploration of derive-then-mutate/snapshot/reopen histories; derived values compared with their recording, sources with the model; released mappings are overwritten so that any surviving alias is visible.",
+              "note": "This check covers the bitmap half (roaring kernels). Fragment rows are covered by C07/C29 (row cache, real mmap: a SIGSEGV on an unmapped page kills the child and is reported) and query results by the node-level checks."}
+MAN["C04"] = {"text": "Seeded exploration over encodings and target states; what simulation adds over input generation is the reuse of one buffer across decode, import, log and replay, and the storage events in between.",
+              "note": "The quantifier is over inputs: sampled, not enumerated. The encoder is independent of the implementation (written from the format descriptions)."}
+MAN["C05"] = {"text": "Seeded exploration of logged histories with a replay of the file after every operation.",
+              "note": "Writer faults (failed or short writes) are not injected here; crash truncation at write boundaries is C09's business."}
